@@ -237,13 +237,14 @@ def judge_substitution(ver, st):
         body += ('<xs:element name="mB" type="B" substitutionGroup="h"/><xs:element name="mE" type="E" '
                  'substitutionGroup="h"/><xs:element name="mR" type="R" substitutionGroup="h"/><xs:element name="mA" '
                  'type="B" substitutionGroup="h" abstract="true"/><xs:element name="mm" type="E" substitutionGroup="mE"/>'
+                 '<xs:element name="mAl" type="B" substitutionGroup="mA"/>'
                  '<xs:element name="hx" type="BX"/><xs:element name="mX" type="EX" substitutionGroup="hx"/>'
                  '<xs:element name="root"><xs:complexType><xs:choice><xs:element ref="h"/><xs:element ref="hx"/>'
                  '</xs:choice></xs:complexType></xs:element><xs:element name="other" type="B"/>')
         xsd = '<xs:schema xmlns:xs="%s"%s>%s</xs:schema>' % (XS, ' blockDefault="%s"' % bd if bd else '', body)
         s = cls_of(ver)(xsd)
         blk = blockset(hblock, bd)
-        for child in ('h', 'mB', 'mE', 'mR', 'mA', 'mm', 'hx', 'mX', 'other'):
+        for child in ('h', 'mB', 'mE', 'mR', 'mA', 'mm', 'mAl', 'hx', 'mX', 'other'):
             st.case()
             if child == 'h':
                 exp = not habs
@@ -255,10 +256,10 @@ def judge_substitution(ver, st):
                 hxblk = blockset(None, bd) | {'extension'} | blockset(None, bd)
                 exp = 'substitution' not in hxblk and False   # type BX blocks extension: EX member not substitutable
             else:
-                method = {'mB': None, 'mE': 'extension', 'mR': 'restriction', 'mA': None, 'mm': 'extension'}[child]
+                method = {'mB': None, 'mE': 'extension', 'mR': 'restriction', 'mA': None, 'mm': 'extension', 'mAl': None}[child]
                 tblk = blockset(None, bd)        # declared type B has no block of its own: blockDefault
                 exp = ('substitution' not in blk) and (method not in blk) and (method not in tblk) and child != 'mA'
-            if child == 'mm' and 'substitution' in blockset(None, bd):
+            if child in ('mm', 'mAl') and 'substitution' in blockset(None, bd):
                 # the intermediate member mE blocks substitution (blockDefault): whether that breaks the
                 # transitive chain mm -> mE -> h is not settled by the statement: not asserted
                 st.cls('second_level_member_behind_blocking_intermediate')
